@@ -83,6 +83,7 @@ var scenarioWish = map[string]Wish{
 	"crash-points":         {MinNodes: 3, MaxNodes: 3, Async: 50, Tiny: 0, Spare: 0},
 	"flow":                 {MinNodes: 2, MaxNodes: 3, Async: 30, Tiny: 100, Spare: 0},
 	"big-joint":            {MinNodes: 8, MaxNodes: 9, Async: 30, Tiny: 0, Spare: 0, Learners: 3},
+	"snapshot-race":        {MinNodes: 3, MaxNodes: 4, Async: 100, Tiny: 10, Spare: 0, NoLearner: true},
 	"ack-race":             {MinNodes: 5, MaxNodes: 5, Async: 100, Tiny: 0, Spare: 0, NoLearner: true},
 }
 
